@@ -27,6 +27,7 @@ CONSTANTS
     Correct, Faulty,    \* partition of Validators
     Payloads,           \* payloads a proposer / Byzantine leader may choose
     HonestPayloads(_),  \* payloads a correct proposer may choose in a given view (the application's choice; MC wrappers narrow it)
+    EnableLeaderNV,     \* BOOLEAN: explore the leader's same-view new-view (adoption without view change); multiplies states ~30x
     ViewCap             \* model-checking bound: messages for views above it are never delivered (MC wrapper sets it)
 
 ASSUME Correct \cup Faulty = Validators /\ Correct \cap Faulty = {}
@@ -161,7 +162,7 @@ RecvJust(r, J, k) ==
 (* The leader's new-view for the current view (certificates adopted, nothing else). *)
 RecvLeaderNV(r, J) ==
     LET l == Leader(rs[r].view)
-    IN \E j \in {x \in J : JView(x) = rs[r].view} :
+    IN EnableLeaderNV /\ \E j \in {x \in J : JView(x) = rs[r].view} :
           /\ Step(r, NewViewMsg(l, j), -1, "leadernv")
 
 Timer(r, k) == Apply(r, OnTimer(r, rs[r], store[r]), k, Act("timer", r, NoMsg))
